@@ -69,6 +69,9 @@ var programs = []string{
 	"<%= for (v) in xs { %><%= tag({a: 1, b: \"s\"}) %>,<% } %>",
 	"<% let bump = fn(o) { o[\"n\"] = o[\"n\"] + 1 return o[\"n\"] } %><%= bump({n: 1}) %>;<%= bump({n: 1}) %>",
 	"<% let h = {n: 1} %><% h[\"n\"] = x %><%= h[\"n\"] %>|<%= {n: 1}[\"n\"] %>",
+	// a + x is a value of its own: the data it was computed from is as it was
+	"<%= whole[3] %><% let longer = part + x %>|<%= whole[3] %>|<%= longer[3] %>",
+	"<% let a = [1, 2, 3] %><% let b = a + x %><% let c = a + y %><%= b[3] %>|<%= c[3] %>|<%= len(a) %>",
 }
 
 // tag: a helper of the usual "fill in the defaults" kind: it writes into the options it was given
@@ -92,6 +95,9 @@ func newCtx(x, y int, r *recorder) *plush.Context {
 	ctx.Set("x", x)
 	ctx.Set("y", y)
 	ctx.Set("xs", []int{x, y, 3})
+	backing := []int{1, 2, 3, 9}
+	ctx.Set("part", backing[:3])
+	ctx.Set("whole", backing)
 	ctx.Set("s", S{Name: "r", Kids: []S{{Name: "a"}, {Name: "b"}}})
 	ctx.Set("note", r.note)
 	ctx.Set("blk", blk)
